@@ -20,6 +20,8 @@ pub fn check(tier: Tier) -> Check {
         parts.push(Part::new("C07/dispatch", json!({"depth": d}), k, tier.pick(40, 500)));
     }
     parts.push(Part::new("C07/fields", json!({}), 0, tier.pick(20, 60)));
+    // QoS 2 messages over two identifiers that are released (PUBREL) in any order and used again
+    parts.push(Part::new("C07/dispatch", json!({"depth": tier.pick(7, 8), "rel": true}), 0, tier.pick(40, 400)));
     parts.push(Part::new("C07/dispatch", json!({"depth": tier.pick(5, 6), "flavour": 1}), 0, tier.pick(30, 400)));
     // identifier flavour: the counters start next to a boundary of their encodings (DESIGN 4)
     parts.push(Part::new("C07/dispatch", json!({"depth": tier.pick(5, 6), "ids": [255, 127]}), 0, tier.pick(30, 400)));
@@ -455,6 +457,20 @@ pub fn scenario(name: &str, params: &Value) -> Scenario {
                 e.push(Ev::Deliver(inbound(1, true, 100, &[ids[0]], &format!("d{}", n))));
                 if ids.len() == 2 {
                     e.push(Ev::Deliver(inbound(1, true, 100, &[ids[1], ids[0]], &format!("d{}", n))));
+                }
+                if s.params["rel"].as_bool().unwrap_or(false) {
+                    // QoS 2 exchanges over two identifiers, released in any order and reused at once:
+                    // every new message is yielded (C09 looks at re-deliveries; here each PUBLISH is new)
+                    for pid in [200u16, 201] {
+                        if s.m.unreleased.contains(&pid) || s.m.inbox.iter().any(|p| matches!(p, SPacket::Publish { pid: Some(q), qos: 2, .. } if *q == pid)) {
+                            if !s.m.inbox.iter().any(|p| matches!(p, SPacket::Ack { ty: 6, pid: q, .. } if *q == pid)) {
+                                e.push(Ev::Deliver(pubrel_in(pid)));
+                            }
+                        } else {
+                            e.push(Ev::Deliver(inbound(2, false, pid, &[ids[0]], &format!("x{}", n))));
+                        }
+                    }
+                    return e;
                 }
                 for (vi, v) in variants.into_iter().enumerate() {
                     for q in 0..3u8 {
